@@ -83,6 +83,34 @@ Section Rel.
     - intros (-> & -> & -> & ->). repeat split.
   Qed.
 
+  (* the __typename fields at the root of a selection set: a spread contributes none, and neither does
+     the typed inline fragment that replaces it *)
+  Lemma length_flat_map_F2 {A B C D} (R : A -> B -> Prop) (g : A -> list C) (g' : B -> list D) l l' :
+    Forall2 R l l' -> Forall (fun x => forall y, R x y -> List.length (g x) = List.length (g' y)) l ->
+    List.length (flat_map g l) = List.length (flat_map g' l').
+  Proof.
+    induction 1 as [|x y l l' Hxy _ IH]; intro HF; [reflexivity|]. inversion HF as [|? ? Hx Hl]; subst.
+    cbn [flat_map]. rewrite !app_length, (Hx y Hxy), (IH Hl). reflexivity.
+  Qed.
+  Lemma root_typename_fields_of_inl x : forall y, isel x y ->
+    List.length (root_typename_fields_of x) = List.length (root_typename_fields_of y).
+  Proof.
+    induction x as [p al n args dirs sp sels IH|p n dirs|p tc dirs sp sels IH] using selection_ind';
+      intros y Hxy; inversion Hxy as [? ? ? ? ? ? ? sels' Hs|?|? ? ? ? ? sels' Hs|]; subst;
+      cbn [root_typename_fields_of]; try reflexivity.
+    - destruct (name_eqb n "__typename"); reflexivity.
+    - destruct tc as [tc|]; [reflexivity|]. apply (length_flat_map_F2 isel); assumption.
+  Qed.
+  Lemma root_typename_fields_inl l l' : isels l l' ->
+    match root_typename_fields l with [] => false | _ :: _ => true end =
+    match root_typename_fields l' with [] => false | _ :: _ => true end.
+  Proof.
+    intro H. assert (E : List.length (root_typename_fields l) = List.length (root_typename_fields l')).
+    { unfold root_typename_fields. apply (length_flat_map_F2 isel); [exact H|].
+      apply Forall_forall. intros x _. apply root_typename_fields_of_inl. }
+    destruct (root_typename_fields l), (root_typename_fields l'); try reflexivity; discriminate.
+  Qed.
+
   Lemma iop_fields o o' : iop o o' ->
     o_kind o = o_kind o' /\ o_pos o = o_pos o' /\ o_name o = o_name o' /\ o_vars o = o_vars o' /\
     o_dirs o = o_dirs o' /\ o_span o = o_span o' /\ isels (o_sels o) (o_sels o').
@@ -1692,8 +1720,7 @@ Section Doc.
       + intros f e e' (_ & _ & Hp). rewrite Hp. reflexivity.
     - apply (F2_existsb (iop F)). eapply Forall2_impl_in; [|apply idoc_ops, Hd]. intros o o' _ H.
       destruct (iop_fields _ _ _ H) as (Hk & _ & _ & _ & _ & _ & Hs). rewrite <- Hk.
-      destruct (o_kind o); try reflexivity. apply (F2_existsb (isel F)). eapply Forall2_impl_in; [|exact Hs].
-      intros x y _ []; reflexivity.
+      destruct (o_kind o); try reflexivity. apply (root_typename_fields_inl F), Hs.
   Qed.
 
   Lemma i_possible_fragment_spreads : v_possible_fragment_spreads s d = v_possible_fragment_spreads s d'.
